@@ -98,3 +98,26 @@ fn c12_config_normalized_always_validates_and_validate_is_exact() {
     kani::cover!(matches!(cfg.scale_factor, Some(s) if s.is_nan()), "NaN scale factor");
     std::mem::forget((ok, nok));
 }
+
+// Layer-0 beam width (source slice): search_attempt computes `ef` inline and then truncates the beam's
+// result to top_k; a beam narrower than min(top_k, MAX_EF_SEARCH) cannot return k results, which the
+// recall floors for k in 1..n+1 rest on (seeded change C12-2 swapped min and max). The statement is
+// extracted from the current hnsw.rs on every run.
+include!("/verif/slices/beam_width.rs");
+
+// @check id=C12 tier=quick cap=300 needs=slice_beam role=beam_width
+// @fns HnswIndex::search_attempt (inline beam-width statement, sliced)
+// @bound ef_search in 1..=MAX_EF_SEARCH (what HnswConfig::normalized / validate admit), top_k any usize
+// @assume the sliced statement is the one search_attempt executes (extracted textually, anchored on `let ef`)
+#[kani::proof]
+fn c12_beam_is_wide_enough_for_top_k() {
+    let (ef_search, top_k): (usize, usize) = (kani::any(), kani::any());
+    kani::assume(ef_search >= 1 && ef_search <= HnswConfig::MAX_EF_SEARCH);
+    let ef = slice_beam_width(ef_search, top_k);
+    let want_k = if top_k < HnswConfig::MAX_EF_SEARCH { top_k } else { HnswConfig::MAX_EF_SEARCH };
+    assert!(ef >= want_k, "the beam can hold top_k results (up to the documented cap)");
+    assert!(ef >= ef_search, "and is never narrower than the configured breadth");
+    assert!(ef <= HnswConfig::MAX_EF_SEARCH, "nor wider than the cap, however large top_k is");
+    kani::cover!(top_k > ef_search && top_k < HnswConfig::MAX_EF_SEARCH, "top_k above ef_search widens the beam");
+    kani::cover!(top_k > HnswConfig::MAX_EF_SEARCH, "huge top_k capped");
+}
